@@ -204,6 +204,9 @@ class C03(core.Check):
         out += hostile.cut_cases(r, q)
         out += hostile.length_edge_cases(r, q)
         out += hostile.dict_cases(r, q)
+        # scale: indexes far beyond the few thousand entries of any fixture (tables that are grown in steps only grow then)
+        for nbig in ([20000] if q else [16385, 20000, 70000]):
+            out.append(("scale:%d-chunks" % nbig, zckref.make_file([b"%c" % (65 + (k % 26)) * (1 + k % 3) for k in range(nbig)], comp_type=0, chunk_hash_type=3, hash_type=1)))
         # C13's header generator (valid + mutated headers), with some body bytes appended
         import c13
 
@@ -256,7 +259,7 @@ class C03(core.Check):
                 progs.append((r.choice(["std", "std", "adv"]), [r.choice(API_OPS) for _ in range(r.randrange(3, 13))]))
             tools = None
             subset = None
-            if (i % (8 if self.quick else 3)) == 0 or desc.startswith(("grid:chunk", "edge:", "c13:valid", "dict:")):
+            if (i % (8 if self.quick else 3)) == 0 or desc.startswith(("grid:chunk", "edge:", "c13:valid", "dict:", "scale:")):
                 tools = ctx["tools"]
             out.append({"desc": desc, "data": core.b64(data), "good": core.b64(self.good), "good2": core.b64(self.good2), "progs": progs, "zh": ctx["zh"], "tools": tools, "tool_subset": subset})
         # memcheck sample: half from mutants of valid files (they get past the gate and into the decompressor), half from anywhere
